@@ -210,7 +210,10 @@ def gen_shape_case(rng):
                     pts.append([quant(at[0] + rng.uniform(-6, 6)), quant(at[1] + rng.uniform(-6, 6))])
     if rng.random() < 0.2:
         pts.append([quant(rng.uniform(-1e5, 1e5)), quant(rng.uniform(-1e5, 1e5))])
-    return {"op": "shape", "s": s, "pts": pts, "exact": exact}
+    case = {"op": "shape", "s": s, "pts": pts, "exact": exact}
+    if rng.random() < 0.3:
+        case["via"] = rng.randrange(1 << 30)    # the object reaches these values through its setters, after being queried
+    return case
 
 
 def gen(rng, n):
@@ -539,7 +542,7 @@ def observe_net(case):
 
 def observe_shape(case):
     s = case["s"]
-    sh = G.make_shape(s)
+    sh = G.make_shape(s) if case.get("via") is None else G.make_shape_via(s, case["via"])
     ob = {"contains": [guarded(lambda: bool(sh.contains_point(np.array(p, dtype=float)))) for p in case["pts"]],
           "members": []}
     for m, msh in zip(G.prims(s), sh.shapes if s["k"] == "group" else [sh]):
@@ -565,6 +568,20 @@ def judge_shape(case, ob):
     s, exact = case["s"], case["exact"]
     ob["near"] = []
     out = []
+    if case.get("via") is not None:   # same demands; the signature says how the object got its values
+        plain = dict(case)
+        del plain["via"]
+        res = []
+        judged = judge_shape(plain, ob)
+        half = all(abs(mo.get("radius", 0.0) - float(m["r"]) / 2) <= 1e-9 * max(1.0, float(m["r"]))
+                   for m, mo in zip(G.prims(s), ob["members"]) if m["k"] == "circ")
+        for sig, what in judged:
+            if sig == "Circle.shapely_object:radius" and half:
+                res.append((sig, what))     # the half-radius disc of the CURRENT radius: the recorded finding, not a stale one
+            else:
+                res.append((sig + ":values assigned through the setters after queries", what + " [object built with other "
+                            "values, queried, then set to these values through its public setters]"))
+        return res
     for j, (m, mo) in enumerate(zip(G.prims(s), ob["members"])):
         if m["k"] == "circ":
             c = m["c"]
